@@ -169,7 +169,7 @@ impl Check for C06 {
     }
     fn generate(&self, g: &GenParams, emit: &mut dyn FnMut(Case)) {
         let mut r = g.rng(6);
-        let n = g.count(100_000, 3_000_000);
+        let n = g.count(150_000, 8_000_000);
         for k in 0..n {
             let mut o = DocOpts::random(&mut r);
             o.dup_keys = k % 4 == 0;
